@@ -99,7 +99,7 @@ class Models:
             if isinstance(x, slice):
                 if x.step not in (None, 1):
                     raise Unsupported("strided slice @%s" % line)
-                lo, hi = _clamp_slice(x, arr.shape[k])
+                lo, hi = _clamp_slice(x, arr.shape[k], ex)
                 axes.append(k)
                 offs[k] = lo
                 shape.append(arith("-", hi, lo))
@@ -191,7 +191,7 @@ class Models:
             if isinstance(x, slice):
                 if x.start is None and x.stop is None:
                     full.add(k)
-                lo, hi = _clamp_slice(x, arr.shape[k])
+                lo, hi = _clamp_slice(x, arr.shape[k], ex)
                 rng[k] = (lo, hi)
                 order.append(k)
             else:
@@ -279,7 +279,7 @@ class Models:
     def symlist_slice(self, ex, lst, sl, line):
         if sl.step not in (None, 1):
             raise Unsupported("strided slice of a list")
-        lo_c, hi_c = _clamp_slice(sl, lst.length)
+        lo_c, hi_c = _clamp_slice(sl, lst.length, ex)
         n = arith("-", hi_c, lo_c)
         k = fresh("k", z3.IntSort())
         comps = [V.canon_lambda([k], V.select(c, [k + V.z3int(lo_c)])) for c in lst.comps]
@@ -466,13 +466,23 @@ def _has_int_eq(c, depth=0):
     return False
 
 
-def _clamp_slice(x, n):
+def _clamp_slice(x, n, ex=None):
     """NumPy/Python slice bounds: negative literals count from the end, then both are clamped to [0, n] and
-    an empty slice results when stop < start"""
+    an empty slice results when stop < start.  Case distinctions that the path condition already decides are
+    resolved here (the clamped bound is then the plain expression instead of a nest of conditionals)."""
     if x.start is None and x.stop is None:
         return 0, n
     lo = 0 if x.start is None else x.start
     hi = n if x.stop is None else x.stop
+
+    def ite(c, a, b):       # noqa: F811  (path-condition aware)
+        if ex is not None and is_z3(c):
+            cz = V.z3bool(c)
+            if not ex.feasible(z3.Not(cz)):
+                return a
+            if not ex.feasible(cz):
+                return b
+        return V.ite(c, a, b)
 
     def norm(b):
         if not is_z3(b):
@@ -646,6 +656,14 @@ def _install(M):
             return int(x)
         # truncation toward zero
         x = V.z3real(x)
+        # int(n / d) with an integer n and a positive integer literal d: the same value in integer arithmetic
+        # (n >= 0: n div d;  n < 0: -((-n) div d)), which the solver handles far better than to_int(to_real(n)/d)
+        if z3.is_app(x) and x.decl().kind() == z3.Z3_OP_DIV and z3.is_rational_value(x.arg(1)):
+            num, den = x.arg(0), x.arg(1)
+            if den.denominator_as_long() == 1 and den.numerator_as_long() > 0 and z3.is_app(num) \
+                    and num.decl().kind() == z3.Z3_OP_TO_REAL:
+                n_, d_ = num.arg(0), den.numerator_as_long()
+                return z3.If(n_ >= 0, n_ / d_, -((-n_) / d_))
         return z3.If(x >= 0, z3.ToInt(x), -z3.ToInt(-x))
 
     @reg("float")
